@@ -225,7 +225,9 @@ def near_tie(resp, case):
         for k, v in enumerate(vals):
             s += v
             m = s / (k + 1)
-            if m != level and abs(m - level) <= abs(level) * Fraction(1, 10**9):
+            # (with two or more summands the float sum may round, so even a mean that EQUALS the level exactly can
+            #  come out above it in doubles: 0.05+0.05+0.05 = 0.15000000000000002)
+            if (k >= 1 or m != level) and abs(m - level) <= abs(level) * Fraction(1, 10**9) and not (k == 0 and m == level):
                 return True
     return False
 
@@ -350,7 +352,7 @@ def expected_pep_cutoff(case, impl_out):
     for k, v in enumerate(peps):
         s += v
         m = s / (k + 1)
-        if m != level and abs(m - level) <= abs(level) * Fraction(1, 10**9):
+        if (k >= 1 or m != level) and abs(m - level) <= abs(level) * Fraction(1, 10**9) and not (k == 0 and m == level):
             return None
         if m > level:
             want = v
